@@ -21,7 +21,13 @@ def step (j : Json) : R Json := do
     let t ← getTol j
     let rule ← parseRule j
     let r := uniquify rule t pts
-    pure (obj [("pts", ofList ofRats r.pts), ("new_2_old", ofNats r.new2old), ("old_2_new", ofNats r.old2new)])
+    let base := [("pts", ofList ofRats r.pts), ("new_2_old", ofNats r.new2old), ("old_2_new", ofNats r.old2new)]
+    -- optionally also what the rule of the current code computes, and whether the two rules agree
+    if (fieldD j "with_anchor" (Json.bool false)) == Json.bool true then
+      let ra := uniquify Rule.anchor t pts
+      pure (obj (base ++ [("anchor", obj [("pts", ofList ofRats ra.pts), ("new_2_old", ofNats ra.new2old),
+        ("old_2_new", ofNats ra.old2new)]), ("agree", Json.bool (anchorAgrees t pts))]))
+    else pure (obj base)
   | "uniquify_points" =>
     let pts ← fRatss j "points"
     let edges ← fNatss j "edges"
